@@ -151,6 +151,64 @@ def search_heavy_beta(chk, r, n):
         chk.search_case("beta0_of_heavy_pieces", d <= 1e-10 * max(sc, 1e-300), what=f"FFNS NfFF={nfff} {name}: (2,0,1,0) != -beta0(NfFF)*(1,0,0,0)", data=sample, sample=sample, nontrivial=sc > 0)
 
 
+def search_inactive_rows(chk, r, n):
+    """fixed-flavour schemes: only the NfFF light quarks, the gluon and the tagged heavy quark itself
+    can be incoming partons of a massive heavy structure function: the rows of every other quark
+    vanish (the heavy kernels are built with the scheme's nf, not with the flavour number of the
+    produced quark)"""
+    plans = [
+        ("FFNS", 3, "F2_bottom", "CC", "neutrino", 1, 0.1, 300.0),
+        ("FFNS", 3, "F3_bottom", "CC", "antineutrino", 1, 0.05, 3e4),
+        ("FFN0", 3, "F2_bottom", "CC", "electron", 1, 0.1, 300.0),
+        ("FFNS", 4, "F2_top", "CC", "neutrino", 1, 0.01, 3e5),
+        ("FFNS", 3, "F2_bottom", "EM", "electron", 2, 0.05, 300.0),
+        ("FFNS", 3, "F2_top", "EM", "electron", 2, 0.001, 3e5),
+    ]
+    B = realrun.BASIS
+    for i in range(n):
+        fns, nfff, name, proc, proj, pto, x, Q2 = plans[i % len(plans)]
+        tagged = {"bottom": 5, "top": 6}[name.split("_")[1]]
+        try:
+            res = realrun.run(cards.theory(PTO=pto, FNS=fns, NfFF=nfff, IC=0), cards.obs({name: [dict(x=x, Q2=Q2)]}, prDIS=proc, ProjectileDIS=proj, interpolation_xgrid=cards.default_grid(8, 1e-3)))[name][0]
+        except Exception as e:
+            chk.extra.setdefault("search_exceptions", {})
+            k = f"inactive-rows:{type(e).__name__}:{str(e)[:80]}"
+            chk.extra["search_exceptions"][k] = chk.extra["search_exceptions"].get(k, 0) + 1
+            continue
+        rows = [B.index(sg * q_) for q_ in range(nfff + 1, 7) if q_ != tagged for sg in (1, -1)]
+        worst = max(float(np.abs(np.asarray(v)[rows]).max()) for v, _ in res.orders.values())
+        scale = max(float(np.abs(np.asarray(v)).max()) for v, _ in res.orders.values())
+        sample = dict(obs=name, FNS=fns, NfFF=nfff, process=proc, PTO=pto, x=x, Q2=Q2, inactive_quarks=[q_ for q_ in range(nfff + 1, 7) if q_ != tagged], max_abs_in_their_rows=worst, scale=scale)
+        chk.search_case("inactive_flavour_rows_zero", worst == 0.0, what=f"{fns} NfFF={nfff} {name} {proc} PTO={pto}: quarks {sample['inactive_quarks']} are not active but their operator rows reach {worst:.3g} (operator scale {scale:.3g})", data=sample, sample=sample if i == 0 else None, nontrivial=scale > 0)
+
+
+def search_point_nf(chk, r, n):
+    """ZM-VFNS run with points on both sides of a matching scale: every order of every point
+    (including the scale-variation entries, which carry P_qg ~ nf and beta0(nf)) equals the one of the
+    single-point run, and the gluon (1,0,0,1) entry of F2 scales with nf between the two sides"""
+    for i in range(n):
+        name = ["F2_total", "F2_light", "FL_total"][i % 3]
+        x = 0.1
+        q2s = [10.0, 50.0] if i % 2 == 0 else [50.0, 10.0, 3.0]
+        kw = dict(prDIS="EM", interpolation_xgrid=cards.default_grid(8, 1e-2))
+        th = cards.theory(PTO=1, FNS="ZM-VFNS")
+        try:
+            big = realrun.run(th, cards.obs({name: [dict(x=x, Q2=q_) for q_ in q2s]}, **kw))[name]
+            singles = [realrun.run(th, cards.obs({name: [dict(x=x, Q2=q_)]}, **kw))[name][0] for q_ in q2s]
+        except Exception as e:
+            chk.extra.setdefault("search_exceptions", {})
+            k = f"point-nf:{type(e).__name__}:{str(e)[:80]}"
+            chk.extra["search_exceptions"][k] = chk.extra["search_exceptions"].get(k, 0) + 1
+            continue
+        bad = []
+        for q_, a, b in zip(q2s, big, singles):
+            for k in b.orders:
+                if not np.array_equal(np.asarray(a.orders[k][0]), np.asarray(b.orders[k][0])):
+                    bad.append(f"Q2={q_} order {k}: differs by {float(np.abs(np.asarray(a.orders[k][0]) - np.asarray(b.orders[k][0])).max()):.3g}")
+        sample = dict(obs=name, x=x, Q2s=q2s, differing=bad[:6])
+        chk.search_case("orders_of_a_point_use_its_own_nf", not bad, what=f"{name} ZM-VFNS PTO=1, points at Q2={q2s} in one run: " + "; ".join(bad[:3]), data=sample, sample=sample if i == 0 else None)
+
+
 def run(tier):
     chk = common.Check("C06", tier)
     thorough = tier == "thorough"
@@ -162,6 +220,8 @@ def run(tier):
     corr_sv.run_sv(chk, 200 if thorough else 30, r, stream="compute_local_nf")
     search(chk, r, 60 if thorough else 6)
     search_heavy_beta(chk, r, 8 if thorough else 3)
+    search_inactive_rows(chk, r, 12 if thorough else 4)
+    search_point_nf(chk, r, 6 if thorough else 2)
     chk.assumptions += [
         "thresholds are compared as exact rationals of the doubles the Runner built (m^2*k^2 in IEEE arithmetic); the formation of the product itself is compared to 2 ulp",
         "unsorted thresholds: numpy.digitize raises ValueError, modelled as rejection",
